@@ -151,6 +151,37 @@ def stepped(items, build):
     return s.complete()
 
 
+def two_subscribers(items, op):
+    """ONE piped observable (Subject source piped through op), subscribed twice before any item is pushed: both
+    subscribers must see what a single subscriber sees.  Returns the two Results."""
+    subject = Subject()
+    obs = subject.pipe(op)
+    results = [Result(), Result()]
+    buf = io.StringIO()
+    with contextlib.redirect_stdout(buf):
+        for r in results:
+            def on_next(v, r=r):
+                r.items.append(snapshot(v))
+
+            def on_error(e, r=r):
+                if r.error is None:
+                    r.error = e
+
+            def on_completed(r=r):
+                r.completed += 1
+            try:
+                obs.subscribe(on_next=on_next, on_error=on_error, on_completed=on_completed)
+            except Exception as e:
+                r.raised = e
+        try:
+            for v in items:
+                subject.on_next(v)
+            subject.on_completed()
+        except Exception as e:
+            results[0].raised = e
+    return results
+
+
 def interleaved(chunk_lists, make_op, sched):
     """Several subscriptions alive at the same time: stream k is pushed through its own Subject and make_op(k) (the
     caller decides whether operator objects are shared); `sched` (ints) picks which stream delivers its next chunk.
